@@ -35,9 +35,10 @@ func ConvertQueueErr(err error) error {
 
 // NormalizeSlotIndex slot index
 func NormalizeSlotIndex(index int, slotSize int) int {
+	// reduce first: negating the minimum integer overflows back to itself
+	index %= slotSize
 	if index < 0 {
 		index = -index
 	}
-	index %= slotSize
 	return index
 }
